@@ -28,10 +28,13 @@ pub struct Case {
     /// 3 / 4 = the library's `from_radix` option presets (write and parse) with default breaks / breaks +-1
     pub notation: u8,
     pub trim: bool,
+    /// generic radices only: max_significant_digits (0 = unset). With a digit limit only the
+    /// well-formedness and acceptance clauses are judged (the rounded value is C14's business).
+    pub digits: u8,
 }
 
 pub fn case_json(j: &Job, c: &Case) -> Value {
-    json!({"format": cat().entries[j.entry].name, "type": FLOAT_NAMES[j.ty], "bits": format!("{:#x}", c.bits), "notation": c.notation, "trim": c.trim})
+    json!({"format": cat().entries[j.entry].name, "type": FLOAT_NAMES[j.ty], "bits": format!("{:#x}", c.bits), "notation": c.notation, "trim": c.trim, "digits": c.digits})
 }
 
 /// the library's own option presets for a radix apply to plain-radix formats only
@@ -47,6 +50,9 @@ pub fn write_opts(m: &vcore::fmodel::FormatModel, c: &Case) -> lexical_core::Wri
         b = lexical_core::WriteFloatOptions::from_radix(m.mantissa_radix() as u8).rebuild();
     }
     b = b.trim_floats(c.trim);
+    if c.digits > 0 {
+        b = b.max_significant_digits(std::num::NonZeroUsize::new(c.digits as usize));
+    }
     match c.notation {
         1 => {
             b = b.positive_exponent_break(NonZeroI32::new(2000)).negative_exponent_break(NonZeroI32::new(-2000));
@@ -116,9 +122,10 @@ fn bits_strategy(k: FloatKind, radix: u32) -> BoxedStrategy<u64> {
     prop_oneof![6 => gen::finite_mag(k), 2 => pow_edges, 2 => ints].boxed()
 }
 
-fn case_strategy(k: FloatKind, radix: u32) -> BoxedStrategy<Case> {
-    (bits_strategy(k, radix), prop_oneof![3 => 0u8..3, 1 => 3u8..5], prop_oneof![3 => Just(false), 1 => Just(true)], any::<bool>())
-        .prop_map(move |(mag, notation, trim, neg)| Case { bits: if neg { mag | k.sign_mask() } else { mag }, notation, trim })
+fn case_strategy(k: FloatKind, radix: u32, with_digits: bool) -> BoxedStrategy<Case> {
+    let digits = if with_digits { prop_oneof![3 => Just(0u8), 1 => 1u8..=6, 1 => 7u8..=40].boxed() } else { Just(0u8).boxed() };
+    (bits_strategy(k, radix), prop_oneof![3 => 0u8..3, 1 => 3u8..5], prop_oneof![3 => Just(false), 1 => Just(true)], any::<bool>(), digits)
+        .prop_map(move |(mag, notation, trim, neg, digits)| Case { bits: if neg { mag | k.sign_mask() } else { mag }, notation, trim, digits })
         .boxed()
 }
 
@@ -188,7 +195,7 @@ pub fn check_generic(j: &Job, c: &Case, l: &mut Local) -> CaseResult {
     let ec = opts.exponent();
     l.eval(1);
     let mag = k.abs(c.bits);
-    let desc = |what: String| Fail::new(format!("{} {} [{}] write(bits {:#x} ~ {:e}, notation {}, trim {}): {}", FLOAT_NAMES[j.ty], e.name, m.describe(), c.bits, if k.p == 53 { f64::from_bits(c.bits) } else { f32::from_bits(c.bits as u32) as f64 }, NOTATION_NAMES[(c.notation as usize).min(4)], c.trim, what));
+    let desc = |what: String| Fail::new(format!("{} {} [{}] write(bits {:#x} ~ {:e}, notation {}, trim {}): {}", FLOAT_NAMES[j.ty], e.name, m.describe(), c.bits, if k.p == 53 { f64::from_bits(c.bits) } else { f32::from_bits(c.bits as u32) as f64 }, NOTATION_NAMES[(c.notation as usize).min(4)], c.trim, if c.digits > 0 { format!("[max_significant_digits {}] {what}", c.digits) } else { what }));
     let out = match do_write(j.entry, j.ty, c.bits, &opts) {
         Ok(o) => o,
         Err(p) => return Err(desc(format!("failed: {p}"))),
@@ -215,6 +222,12 @@ pub fn check_generic(j: &Job, c: &Case, l: &mut Local) -> CaseResult {
     }
     if parts.neg != k.is_negative(c.bits) {
         return Err(desc(format!("output {:?} has the wrong sign", show(&out))));
+    }
+    if c.digits > 0 {
+        // digit limit set: well-formed, accepted, right sign (value after rounding: C14)
+        l.class("with-max-significant-digits");
+        l.nontrivial_hash(splitmix(c.bits ^ ((j.entry as u64) << 50) ^ ((c.notation as u64) << 60) ^ ((c.digits as u64) << 40)));
+        return Ok(());
     }
     let (mm, q) = k.decode(mag);
     let v = match exact_value(&parts, rx) {
@@ -323,7 +336,7 @@ pub fn run_c06(ctx: &Ctx, rep: &mut Report) {
         return;
     }
     let per = ctx.n((2_000_000 / js.len() as u64).max(2000), 2_000_000);
-    run_prop_jobs(rep, ctx, "pow2:generated", &js, per, |j| case_strategy(kind_of(j.ty), cat().models[j.entry].mantissa_radix()), case_json, check_pow2);
+    run_prop_jobs(rep, ctx, "pow2:generated", &js, per, |j| case_strategy(kind_of(j.ty), cat().models[j.entry].mantissa_radix(), false), case_json, check_pow2);
     // every binade x a few mantissa patterns x both forced notations
     let per_binade: u64 = ctx.n(3, 200);
     run_enum(rep, ctx, "pow2:binade-sweep", js.len(), |ji, l, viol| {
@@ -340,7 +353,7 @@ pub fn run_c06(ctx: &Ctx, rep: &mut Report) {
             }
             for mant in mants {
                 for notation in [1u8, 2] {
-                    let c = Case { bits: (e << mb) | mant, notation, trim: false };
+                    let c = Case { bits: (e << mb) | mant, notation, trim: false, digits: 0 };
                     if let Err(f) = check_pow2(j, &c, l) {
                         if filter_known(ctx, l, &f) {
                             viol.push((f.message, case_json(j, &c)));
@@ -368,7 +381,7 @@ pub fn run_c07(ctx: &Ctx, rep: &mut Report) {
         return;
     }
     let per = ctx.n((2_000_000 / js.len() as u64).max(2000), 3_000_000);
-    run_prop_jobs(rep, ctx, "generic:generated", &js, per, |j| case_strategy(kind_of(j.ty), cat().models[j.entry].mantissa_radix()), case_json, check_generic);
+    run_prop_jobs(rep, ctx, "generic:generated", &js, per, |j| case_strategy(kind_of(j.ty), cat().models[j.entry].mantissa_radix(), true), case_json, check_generic);
 }
 
 fn replay_common(case: &Value, pow2: bool) -> CaseResult {
@@ -377,7 +390,7 @@ fn replay_common(case: &Value, pow2: bool) -> CaseResult {
     let entry = cat().idx(fmt).ok_or_else(|| Fail::new(format!("format {fmt} not compiled in this configuration")))?;
     let ty = if case["type"].as_str() == Some("f32") { 0 } else { 1 };
     let bits = u64::from_str_radix(case["bits"].as_str().unwrap_or("0x0").trim_start_matches("0x"), 16).unwrap_or(0);
-    let c = Case { bits, notation: case["notation"].as_u64().unwrap_or(0) as u8, trim: case["trim"].as_bool().unwrap_or(false) };
+    let c = Case { bits, notation: case["notation"].as_u64().unwrap_or(0) as u8, trim: case["trim"].as_bool().unwrap_or(false), digits: case["digits"].as_u64().unwrap_or(0) as u8 };
     if pow2 {
         check_pow2(&Job { entry, ty }, &c, &mut l)
     } else {
